@@ -123,7 +123,6 @@ def _work(args):
     """Run a chunk of sub-seeds; return an aggregate."""
     prop, verif_seed, ks, want_digests, keep_samples = args
     eng = _ENGINE
-    faulthandler.dump_traceback_later(eng.run_timeout, exit=True)
     agg = {
         "n": 0,
         "stats": collections.Counter(),
@@ -145,6 +144,8 @@ def _work(args):
     t0 = time.process_time()
     try:
         for k in ks:
+            # watchdog per RUN (not per chunk): a hung run kills the worker, which the parent reports as a harness error
+            faulthandler.dump_traceback_later(eng.run_timeout, exit=True)
             ss = tapemod.sub_seed(verif_seed, prop, k)
             res = run_one(eng, seed=ss)
             agg["n"] += 1
@@ -305,9 +306,10 @@ def main_check(engine, tier, verif_seed, wall_cap=None, workers=None):
         submit_more()
         st_future = pool.submit(_work, selftest_work) if selftest_work else None
         while pending:
-            done, _ = cf.wait(pending, timeout=engine.run_timeout + 60, return_when=cf.FIRST_COMPLETED)
+            # a hung run is killed by its own per-run watchdog (-> BrokenProcessPool); this is only a last resort
+            done, _ = cf.wait(pending, timeout=7200, return_when=cf.FIRST_COMPLETED)
             if not done:
-                harness_exit(f"{prop}: workers made no progress for {engine.run_timeout + 60}s")
+                harness_exit(f"{prop}: workers made no progress for 7200s")
             for f in done:
                 pending.discard(f)
                 agg = f.result()
